@@ -887,7 +887,25 @@ def run(ctx):
         for tr in ("static", "extern", "static inline", "inline static", "_Noreturn static", "extern inline"):
             n_ += 1
             so_lines.append("%s %s sf%d(void);" % (tg.replace("%d", str(n_)), tr, n_))
+    # ... and in parameter lists, type names, member lists and compound literals
+    so_lines += ["void sp_f1(struct P1 { int a; } const p);", "void sp_f2(enum E2 { A2 } register e);", "int sp_s1 = sizeof(struct Q1 { int a; } const);",
+                 "int sp_s2 = sizeof(struct Q2 { int a; } const *);", "int sp_s3 = _Alignof(union Q3 { int a; } volatile [2]);",
+                 "struct SO1 { struct SI1 { int a; } _Alignas(8) x; union { int b; } const y; enum { SZ1 } volatile z : 3; };",
+                 "void sp_g(void) { int c = (struct C1 { int a; } const){ 1 }.a; }", "void sp_h(void) { for (struct F1 { int i; } const *q = 0; ; ) break; }"]
     progs.append(("specorder", "c11", "\n".join(so_lines) + "\n"))
+
+    # compound literals whose type name starts with a typedef name or a keyword and carries every shape of abstract declarator, in every
+    # operand position that reaches them by another route (operand of sizeof / ++ / & / cast / call argument / member access / bare)
+    cl_types = ["T", "T *", "T [2]", "T (*)(int)", "T (*)[2]", "T (*(*)[2])(int)", "T (*)(T (*)(int))", "T * const", "const T *", "T (* const)(void)",
+                "int", "int (*)(int)", "int (*)[2]", "struct S", "struct S *", "struct S (*)(int)", "unsigned char [4]", "PT", "PT (*)[3]"]
+    cl_pos = ["(void) sizeof %s;", "(void) sizeof (%s);", "(void) %s;", "(void) &%s;", "(void) (%s, 0);", "sink(0, %s);", "(void) (0 ? 0 : sizeof %s);",
+              "(void) (1 + sizeof %s);", "(void) _Alignof(T) ; (void) sizeof %s;", "(void) !sizeof %s;", "(void) (sizeof %s + sizeof %s);"]
+    cl_lines = ["typedef int T;", "typedef char *PT;", "struct S { int m; };", "void sink(int, ...);"]
+    for ti, ty in enumerate(cl_types):
+        for pi, pos in enumerate(cl_pos):
+            lit = "(%s){ 0 }" % ty
+            cl_lines.append("void cl%d_%d(void) { %s }" % (ti, pi, pos.replace("%s", lit)))
+    progs.append(("complit", "c11", "\n".join(cl_lines) + "\n"))
 
     def gcc_ok(p):
         fam, std, text = p
@@ -901,7 +919,7 @@ def run(ctx):
     good = [p for p, (ok, _) in zip(progs, oks) if ok]
     # typedgen: gcc rejects single lines on purpose; keep the lines it accepts
     for p, (ok, err) in zip(progs, oks):
-        if not ok and p[0] in ("typedgen", "declforms", "blockdecl", "specorder"):
+        if not ok and p[0] in ("typedgen", "declforms", "blockdecl", "specorder", "complit"):
             bad = set(int(m.group(1)) for m in re.finditer(r"<stdin>:(\d+):\d+: error", err))
             keep = [l for i, l in enumerate(p[2].split("\n"), 1) if i not in bad]
             good.append((p[0], p[1], "\n".join(keep) + "\n"))
@@ -915,7 +933,7 @@ def run(ctx):
             # the declarations that give T, PT, struct S … their meaning removed from view: still syntactically C
             lines.append(parse_line("c11", text.replace(DECL_PRELUDE, "")))
             meta.append((fam, "c11", text.replace(DECL_PRELUDE, ""), "declarations-removed"))
-        if fam == "typedefgen":
+        if fam in ("typedefgen", "complit"):
             stripped = "\n".join(l for l in text.split("\n") if not l.strip().startswith("typedef ")) + "\n"
             lines.append(parse_line("c11", stripped))
             meta.append((fam, "c11", stripped, "declarations-removed"))
